@@ -3,7 +3,7 @@ from ..matchflow import load_file_summary
 from ..models import Sym, lift_skeleton, make_interp
 from ..values import NONE, DictV, Hole, IntV, ListV, Obj, Str, TupleV, Value
 
-FLOORS = {"C13.M8.expansion-equals-inlining": 14, "C13.M2.fresh-copy-before-substitution": 2,
+FLOORS = {"C13.M6.one-loader-for-every-file": 1, "C13.M8.expansion-equals-inlining": 14, "C13.M2.fresh-copy-before-substitution": 2,
           "C13.M1.definition-unaltered": 4, "C13.M5.extra-files-prepended-fresh": 1, "C13.M3.arguments-from-call-node": 2, "C13.M9.compiles-to-the-same-regex": 14}
 
 
@@ -188,6 +188,8 @@ def run(ctx) -> None:
                         all(k.startswith("@") or k == "times" for k in keys)
                     ctx.check(ok, "C13.M3.arguments-from-call-node", "MacroExpander._resolve_local_macro",
                               f"arguments looked up in {tree!r}"[:120], "the argument values are looked up inside the call node only")
+    from ._matchrules import one_yaml_loader
+    one_yaml_loader(ctx, "C13.M6.one-loader-for-every-file")
     # thorough: every way of factoring one part of a base rule into a macro
     if ctx.tier == "thorough":
         from ..treegen import BASES, positions, replace_at
